@@ -450,6 +450,53 @@ def h_feeder_swallows(i):
             "expected": {"error_callback_calls_for_the_object": [["IndexError", "Bad"]]}}
 
 
+# ---------------------------------------------------------------- C20 / C18: launching a process must not leak descriptors
+def h_launch_fd_balance(i):
+    import gc
+    import loky.backend.popen_loky_posix as pp
+    import loky.backend.fork_exec as fe
+    from loky.backend.process import LokyProcess
+
+    def nfds():
+        gc.collect()
+        return len(os.listdir("/proc/self/fd"))
+    mode = "fork_exec_fails"
+    if i.get("first_pipe_fails"):
+        mode = "first_pipe_fails"
+    elif i.get("second_pipe_fails"):
+        mode = "second_pipe_fails"
+    real_pipe = os.pipe
+    calls = {"n": 0}
+
+    def failing_pipe():
+        calls["n"] += 1
+        if (mode == "first_pipe_fails" and calls["n"] == 1) or (mode == "second_pipe_fails" and calls["n"] == 2):
+            raise OSError(24, "Too many open files")
+        return real_pipe()
+
+    def failing_fork_exec(*a, **k):
+        raise OSError(11, "Resource temporarily unavailable")
+    # warm up everything that legitimately opens descriptors once (trackers)
+    try:
+        with mock.patch.object(fe, "fork_exec", failing_fork_exec):
+            pp.Popen(LokyProcess(target=print))
+    except OSError:
+        pass
+    before = nfds()
+    errors = []
+    for _ in range(5):
+        try:
+            with mock.patch.object(fe, "fork_exec", failing_fork_exec), mock.patch.object(os, "pipe", failing_pipe):
+                calls["n"] = 0
+                pp.Popen(LokyProcess(target=print))
+        except BaseException as e:
+            errors.append("OSError" if isinstance(e, OSError) else type(e).__name__)
+    after = nfds()
+    ok = after == before and all(e == "OSError" for e in errors)
+    return {"reproduced": not ok, "mode": mode, "observed": {"open_descriptors_before": before, "after_5_failed_launches": after, "errors": errors},
+            "expected": {"after_5_failed_launches": before, "errors": ["OSError"] * 5}}
+
+
 def main():
     name, inputs, repo = sys.argv[1], json.loads(sys.argv[2]), sys.argv[3]
     sys.path.insert(0, repo)
